@@ -233,6 +233,66 @@ def tr_from_option_list(fn):
     return True
 
 
+def tr_anywhere(fn):
+    """Options.is_error_code_enabled_anywhere: the two lookups at the top are shape-matched
+    (option = registry[code.name]; instances = self.options.get(option.name, ())); the decision that
+    follows -- a sequence of `if <test>: return <e>` closed by `return <e>` over any()/all() of
+    instance.value, the truthiness of `instances`, True/False and option.default_value -- is
+    translated statement by statement."""
+    body = _body(fn)
+    want = [
+        "Assign(targets=[Name(id='option', ctx=Store())], value=Subscript(value=Attribute(value=Name(id='ConfigOption', ctx=Load()), attr='registry', ctx=Load()), slice=Attribute(value=Name(id='code', ctx=Load()), attr='name', ctx=Load()), ctx=Load()))",
+        "Assign(targets=[Name(id='instances', ctx=Store())], value=Call(func=Attribute(value=Attribute(value=Name(id='self', ctx=Load()), attr='options', ctx=Load()), attr='get', ctx=Load()), args=[Attribute(value=Name(id='option', ctx=Load()), attr='name', ctx=Load()), Tuple(elts=[], ctx=Load())], keywords=[]))",
+    ]
+    if [ast.dump(x) for x in body[:2]] != want:
+        _fail(fn, "is_error_code_enabled_anywhere: unexpected lookups at the top")
+
+    def bexpr(e, bound):
+        if isinstance(e, ast.Constant) and e.value is True:
+            return "true"
+        if isinstance(e, ast.Constant) and e.value is False:
+            return "false"
+        if isinstance(e, ast.Attribute) and isinstance(e.value, ast.Name) and e.value.id == "option" and e.attr == "default_value":
+            return "default_value"
+        if isinstance(e, ast.Attribute) and isinstance(e.value, ast.Name) and e.value.id in bound and e.attr == "value":
+            return f"(value {e.value.id})"
+        if isinstance(e, ast.Name) and e.id == "instances":  # truthiness of a list / tuple
+            return "(negb (match instances with [] => true | _ => false end))"
+        if isinstance(e, ast.UnaryOp) and isinstance(e.op, ast.Not):
+            return f"(negb {bexpr(e.operand, bound)})"
+        if isinstance(e, ast.BoolOp):
+            op = "&&" if isinstance(e.op, ast.And) else "||"
+            return "(" + f" {op} ".join(bexpr(v, bound) for v in e.values) + ")"
+        if (
+            isinstance(e, ast.Call) and isinstance(e.func, ast.Name) and e.func.id in ("any", "all") and len(e.args) == 1
+            and not e.keywords and isinstance(e.args[0], ast.GeneratorExp) and len(e.args[0].generators) == 1
+        ):
+            g = e.args[0].generators[0]
+            if not (isinstance(g.target, ast.Name) and isinstance(g.iter, ast.Name) and g.iter.id == "instances" and not g.is_async):
+                _fail(e, "unsupported generator")
+            v = g.target.id
+            inner = bexpr(e.args[0].elt, bound | {v})
+            for c in g.ifs:
+                cond = bexpr(c, bound | {v})
+                inner = f"(implb {cond} {inner})" if e.func.id == "all" else f"({cond} && {inner})"
+            return f"({'existsb' if e.func.id == 'any' else 'forallb'} (fun {v} => {inner}) instances)"
+        _fail(e, "unsupported expression in is_error_code_enabled_anywhere")
+
+    def stmts(ss):
+        if not ss:
+            _fail(fn, "is_error_code_enabled_anywhere falls off its end")
+        st = ss[0]
+        if isinstance(st, ast.Return) and st.value is not None:
+            return bexpr(st.value, set())
+        if isinstance(st, ast.If):
+            then = stmts(st.body)
+            rest = stmts(st.orelse) if st.orelse else stmts(ss[1:])
+            return f"(if {bexpr(st.test, set())} then {then} else {rest})"
+        _fail(st, "unsupported statement in is_error_code_enabled_anywhere")
+
+    return stmts(body[2:])
+
+
 def parse_section_facts(fn):
     """Facts about _parse_config_section that the hand-written parser model
     depends on: every `yield option_cls(...)` passes module_path positionally
@@ -287,6 +347,7 @@ def translate(repo="/repo"):
     conc = tr_concat(_find_fn(cc, "get_value_from_instances"))
     tr_no_default(_find_fn(op, "_get_value_for_no_default"))
     tr_from_option_list(_find_fn(op, "from_option_list"))
+    anyw = tr_anywhere(_find_fn(op, "is_error_code_enabled_anywhere"))
     sec = None
     for n in mod.body:
         if isinstance(n, ast.FunctionDef) and n.name == "_parse_config_section":
@@ -324,6 +385,10 @@ Definition get_value_for_no_default {{V : Type}} (default_value : V) (stored : l
 (* Options.from_option_list: command-line instances, then the file's, sorted (stable) by sort_key *)
 Definition from_option_list {{V : Type}} (cli file : list (inst V)) : list (inst V) :=
   sort_by sort_key (cli ++ file).
+
+(* Options.is_error_code_enabled_anywhere (the stored instances of the code's option, its default) *)
+Definition enabled_anywhere (default_value : bool) (instances : list (inst bool)) : bool :=
+  {anyw}.
 
 (* _parse_config_section facts *)
 Definition yield_passes_priority : bool := {b(passes)}.
